@@ -1,7 +1,9 @@
 import TR.Model.Common
 import TR.Model.Bulkhead
 import TR.Model.Adaptive
+import TR.Model.AdaptiveMulti
 import TR.Model.Limit
+import TR.Model.LimitTrace
 import TR.Model.Stack
 import TR.Model.Budget
 import TR.Model.BudgetTrace
@@ -41,8 +43,8 @@ def machineOf (name : String) : Option Machine :=
   | "timelimiter" => some TimeLimiter.machine
   | "budget" => some Budget.machineT
   | "stack" => some Stack.machine
-  | "limit" => some Limit.machine
-  | "adaptive" => some Adaptive.machine
+  | "limit" => some Limit.machineT
+  | "adaptive" => some Adaptive.machineM
   | _ => none
 
 structure Run (m : Machine) where
